@@ -30,6 +30,28 @@ def timezone_of(lat, lon) -> str:
     return _tf.certain_timezone_at(lat=lat, lng=lon)
 
 
+_ZONES: dict = {}
+
+
+def _transitions(tz: str, year: int) -> list:
+    """Dates in ``year`` on which the zone's UTC offset changes."""
+    key = (tz, year)
+    if key not in _ZONES:
+        z = ZoneInfo(tz)
+        out = []
+        d = date(year, 1, 1)
+        prev = datetime(d.year, d.month, d.day, 0, 0, tzinfo=z).utcoffset()
+        while d.year == year:
+            nxt = d + timedelta(days=1)
+            off = datetime(nxt.year, nxt.month, nxt.day, 0, 0, tzinfo=z).utcoffset()
+            if off != prev:
+                out.append(d)
+            prev = off
+            d = nxt
+        _ZONES[key] = out
+    return _ZONES[key]
+
+
 def true_distance_km(a: dict, b: dict) -> float:
     r = geodesy.inverse(a['lat'], a['lon'], b['lat'], b['lon'])
     if r is None or r[3] > 40:
@@ -43,6 +65,23 @@ def gen_row(rng, world: dict, year: int, line: int) -> dict:
     """One schedule row + the harness' knowledge about it (under key '_h')."""
     codes = sorted(world)
     dep, arr = rng.sample(codes, 2)
+    # one row in eight: both airports in ONE time zone that changes its clocks in the data
+    # year, flight around the hour of the change on the day of the change
+    dst_cross = None
+    if rng.random() < 0.125:
+        zones = _ZONES.get(id(world))
+        if zones is None:
+            zones = {}
+            for c_ in codes:
+                zones.setdefault(timezone_of(world[c_]['lat'], world[c_]['lon']), []).append(c_)
+            _ZONES[id(world)] = zones
+            _ZONES[('keep', id(world))] = world
+        cands = [(z, cs) for z, cs in sorted(zones.items())
+                 if z and len(cs) >= 2 and _transitions(z, year)]
+        if cands:
+            z, cs = rng.choice(cands)
+            dep, arr = rng.sample(cs, 2)
+            dst_cross = rng.choice(_transitions(z, year))
     skip = None
     r = rng.random()
     row = {c: '' for c in COLUMNS}
@@ -169,8 +208,18 @@ def gen_row(rng, world: dict, year: int, line: int) -> dict:
     else:
         dh, dm = rng.randint(0, 23), rng.randint(0, 59)
     ah, am = rng.randint(0, 23), rng.randint(0, 59)
-    row['deptim'], row['arrtim'] = f'{dh:02d}{dm:02d}', f'{ah:02d}{am:02d}'
     off_txt = rng.choice(['', ' ', '0', '1', '1', '2', 'P'])
+    if dst_cross is not None:
+        kind = 'dst-change-day-same-zone'
+        d0 = max(date(y, 1, 1), dst_cross - timedelta(days=rng.randint(0, 3)))
+        d1 = min(date(y, 12, 31), dst_cross + timedelta(days=rng.randint(0, 3)))
+        row['efffrom'], row['effto'] = d0.strftime('%Y%m%d'), d1.strftime('%Y%m%d')
+        days = list(range(1, 8))
+        row['days'] = '1234567'
+        dh, dm = rng.choice([0, 0, 1]), rng.randint(0, 59)       # before the change
+        ah, am = rng.randint(3, 6), rng.randint(0, 59)           # after it
+        off_txt = rng.choice(['', '0', ' '])
+    row['deptim'], row['arrtim'] = f'{dh:02d}{dm:02d}', f'{ah:02d}{am:02d}'
     row['arrday'] = off_txt
     off = {'P': -1, '': 0, ' ': 0}.get(off_txt, None)
     if off is None:
